@@ -41,7 +41,10 @@ Proof. exact one_step_partial. Qed.
 
 (** the output never leaves the range spanned by its initial value 0 and the inputs seen so
     far, up to the f32 resolution of the filter: resolution kappa = 16 * 2^-24 / kappa
-    relative to the signal range, kappa the slowest speed among the coefficient sets used *)
+    relative to the signal range, kappa the slowest speed among the coefficient sets used.
+    Magnitude: kappa >= 0.6/fs always (C13_coeffs_good), so the tolerance is at most 1.6e-6 * fs of
+    the largest input magnitude: 0.016% at 100 Hz, 7.6% at 48 kHz when a 10 s glide was used
+    (the stall band of a slow one-pole filter in f32; sharper per-setting bounds: C13_trace_settles) *)
 Theorem C13_hull : forall fs g0 ops lo hi kappa ys,
   glide_new fs = Some g0 ->
   Forall (fun c => good c /\ kappa <= speed c) (coeffs_used g0 ops) ->
@@ -119,7 +122,10 @@ Theorem C13_settles_sharp : forall d x B n kappa,
    Rabs (R32 y - R32 x) <= p ^ n * Rabs (R32 (d_y1 d) - R32 x) + resolution kappa / 2 * B).
 Proof. exact settles_sharp. Qed.
 
-(** the constant 16 in the hull tolerance is the least integer as long as poles down to -2^-22 are admitted *)
+(** about the PROOF, not the filter: the induction step of the hull theorem (a real-valued lemma about the
+    recurrence with a 7.5*2^-24 rounding term) is false with the constant 15; as long as poles down to -2^-22 are
+    admitted, 16 is the least integer for which this proof method goes through.  It does not show that the f32
+    filter ever exceeds a 15-bound *)
 Theorem C13_hull_constant_needed : ~ (forall p kappa lo hi x x1 y1 out,
   - / 4194304 <= p < 1 -> kappa <= 1 - p -> / 100000 <= kappa -> lo <= 0 <= hi ->
   let M := Rmax (- lo) hi in
